@@ -33,6 +33,7 @@ type Clause struct {
 	Src   string
 	Expr  SpecExpr
 	Name  string // for let
+	Params []string // for parametrised let (macro)
 	Props []string
 	Line  int
 	Aux   bool
@@ -84,7 +85,7 @@ type SpecGo struct{ E ast.Expr }
 
 var clauseKeywords = map[string]bool{
 	"func": true, "props": true, "requires": true, "ensures": true, "assigns": true,
-	"loop": true, "let": true, "decreases": true, "inline": true, "trusted": true,
+	"loop": true, "let": true, "sweep": true, "decreases": true, "inline": true, "trusted": true,
 	"nosafety": true, "global": true, "opaque": true,
 }
 
@@ -100,9 +101,18 @@ type GlobalInv struct {
 	File  string
 }
 
+type Sweep struct {
+	Pkg     string
+	Name    string
+	Match   *regexp.Regexp
+	Except  *regexp.Regexp
+	C       *Contract // clauses and props to add
+}
+
 type ContractSet struct {
 	byKey   map[string]*Contract // pkgpath + "::" + key
 	globals map[string][]*GlobalInv
+	sweeps  []*Sweep
 }
 
 func loadContracts(repo string, pkgDirs map[string]string) (*ContractSet, error) {
@@ -199,6 +209,26 @@ func (cs *ContractSet) addClause(pkg, file string, cur **Contract, line int, tex
 		*cur = c
 		return nil
 	}
+	if kw == "sweep" {
+		f := strings.Fields(rest)
+		if len(f) < 2 {
+			return errf("sweep <name> <regexp> [except <regexp>]")
+		}
+		sw := &Sweep{Pkg: pkg, Name: f[0]}
+		var err error
+		if sw.Match, err = regexp.Compile("^(?:" + f[1] + ")$"); err != nil {
+			return errf("%v", err)
+		}
+		if len(f) >= 4 && f[2] == "except" {
+			if sw.Except, err = regexp.Compile("^(?:" + f[3] + ")$"); err != nil {
+				return errf("%v", err)
+			}
+		}
+		sw.C = &Contract{Pkg: pkg, Key: "sweep:" + f[0], File: file, Line: line}
+		cs.sweeps = append(cs.sweeps, sw)
+		*cur = sw.C
+		return nil
+	}
 	if kw == "global" {
 		cl := &GlobalInv{Pkg: pkg, Line: line, File: file}
 		if m := labelRe.FindStringSubmatch(rest); m != nil {
@@ -238,7 +268,10 @@ func (cs *ContractSet) addClause(pkg, file string, cur **Contract, line int, tex
 	if kw == "loop" {
 		var n int
 		var sub string
-		if _, err := fmt.Sscanf(rest, "%d %s", &n, &sub); err != nil {
+		if strings.HasPrefix(rest, "* ") {
+			n = -1
+			sub = strings.Fields(rest)[1]
+		} else if _, err := fmt.Sscanf(rest, "%d %s", &n, &sub); err != nil {
 			return errf("bad loop clause: %q", rest)
 		}
 		cl.Loop = n
@@ -268,6 +301,13 @@ func (cs *ContractSet) addClause(pkg, file string, cur **Contract, line int, tex
 		}
 		cl.Name = strings.TrimSpace(rest[:j])
 		rest = strings.TrimSpace(rest[j+1:])
+		if k := strings.Index(cl.Name, "("); k >= 0 {
+			ps := strings.TrimSuffix(strings.TrimSpace(cl.Name[k+1:]), ")")
+			for _, pn := range strings.Split(ps, ",") {
+				cl.Params = append(cl.Params, strings.TrimSpace(pn))
+			}
+			cl.Name = strings.TrimSpace(cl.Name[:k])
+		}
 	}
 	cl.Src = rest
 	if cl.Kind == "assigns" {
